@@ -134,6 +134,14 @@ def failed_rule(ctx):
             ok = trunc_ok and cnt_ok
             det = 'length saved before the attempt and restored by truncate(saved) in the error continuation: %s; count updated only on the success edge: %s' % (trunc_ok, cnt_ok)
         ctx.ob('FAILED', nm, ok, short_loc(b.span), det)
+        if b is not None:
+            # ... and every Ok counts: no return of success that goes around the attempt and the count update (values whose
+            # encoding is empty - null, a record of nulls - still are values of the block)
+            cnt_ = [bb for bb, _ in field_assigns(b, 'n_elements_in_block')]
+            oks_ = ok_return_blocks(b)
+            counted = bool(cnt_) and bool(oks_) and must_pass(b, 0, oks_, cnt_)
+            ctx.ob('FAILED', nm + '/every-ok-counts', counted, short_loc(b.span),
+                   'every path from the entry of %s to an Ok return updates the element count: %s' % (nm, counted))
 
 
 
